@@ -21,7 +21,7 @@ def main():
     rc, out = sh("git status --porcelain", cwd="/repo")
     assert not out.strip(), "/repo is not clean: " + out
     result = {}
-    for patch in sorted(glob.glob(os.path.join(ROOT, "refactorings", "r*.diff"))):
+    for patch in sorted(glob.glob(os.path.join(ROOT, "refactorings", "[rs][0-9]*.diff"))):
         name = os.path.basename(patch)[:-5]
         if want and name not in want:
             continue
